@@ -202,8 +202,10 @@ def correspondence(ctx):
             ctx.violation('unreported-tree', {'tree': tree, 'observed': rec,
                                               'why': 'CPython raises TypeError for %s but TIFA reports nothing' % tree['src']})
         if rec.get('conforms') is False:
-            ctx.violation('nonconforming-tree', {'tree': tree, 'observed': rec,
-                                                 'why': 'the run-time result of %s (%s) does not conform to the inferred %s' % (tree['src'], rec['result'], rec['type'])})
+            # a value-dependent `**` inside the tree is the recorded finding about `**`, not a new one
+            ctx.violation(pow_culprit(tree) or 'nonconforming-tree',
+                          {'tree': tree, 'observed': rec,
+                           'why': 'the run-time result of %s (%s) does not conform to the inferred %s' % (tree['src'], rec['result'], rec['type'])})
     # (d) value typing
     for vsrc, rec in zip(values, res['values']):
         ctx.case(('value', vsrc), nontrivial='[' in vsrc or '(' in vsrc or '{' in vsrc)
@@ -220,6 +222,33 @@ def correspondence(ctx):
                 'depth 2-3 over typed variables; nested JSON-like values (ints, floats, bools, strs, None, lists, tuples, dicts, sets) '
                 'typed three times. non-trivial for trees = evaluates without error.')
     ctx.notes.append('comparisons and value typing (get_pedal_type_from_value / is_subtype / normalize_type) are not modelled in Coq: tested only')
+
+
+def pow_culprit(tree):
+    """the key of the known `**` finding when a sub-expression  a ** b  of the tree has a VALUE-dependent result type
+    on this environment (int ** negative int -> float, negative ** fractional -> complex); None otherwise"""
+    import ast as _ast
+    try:
+        env = {k: eval(v, {}) for k, v in tree['env'].items()}
+        node = _ast.parse(tree['src'], mode='eval')
+    except Exception:
+        return None
+    names = {int: 'int', float: 'float', bool: 'bool'}
+    for n in _ast.walk(node):
+        if isinstance(n, _ast.BinOp) and isinstance(n.op, _ast.Pow):
+            try:
+                a = eval(compile(_ast.Expression(n.left), '<a>', 'eval'), {}, dict(env))
+                b = eval(compile(_ast.Expression(n.right), '<b>', 'eval'), {}, dict(env))
+                r = a ** b
+            except Exception:
+                continue
+            ta, tb = names.get(type(a)), names.get(type(b))
+            if ta is None or tb is None:
+                continue
+            usual = float if float in (type(a), type(b)) else int
+            if type(r) is not usual:
+                return 'nonconforming:Pow:%s:%s' % ('int' if ta == 'bool' else ta, 'int' if tb == 'bool' else tb)
+    return None
 
 
 def search(ctx):
